@@ -126,6 +126,9 @@ type Tx struct {
 	Fault   int     `json:"fault,omitempty"`   // lab.Fault*
 	Granter int     `json:"granter,omitempty"` // fee granter account index+1 (0 = none)
 	Check   bool    `json:"check,omitempty"`   // run CheckTx before DeliverTx
+	// Repeat > 1: the transaction is built and delivered that many times in a row (each time resolved
+	// against the then-current state): bulk populations around pagination / page-size boundaries.
+	Repeat int `json:"repeat,omitempty"`
 }
 
 type Block struct {
